@@ -9,7 +9,7 @@ use serde::{Deserialize, Serialize};
 use serde_json::Value;
 
 pub fn check_lifecycle(h: &History) -> CaseResult {
-    let st = run_monitored(h, Flags { c01: false, c03: true, c13: false, margins: false })?;
+    let st = run_monitored(h, Flags { c01: false, c03: true, c13: false, margins: false, group_batches: true })?;
     Ok(CaseOk::new(st.expired_in_store_ops > 0)
         .label(h.cfg.kind.name())
         .label_if(st.wasted_delivered > 0, "wasted_delivered")
@@ -42,7 +42,7 @@ pub fn check_gc(c: &GcCase) -> CaseResult {
             }
         }
     }
-    let flags = Flags { c01: false, c03: true, c13: false, margins: true };
+    let flags = Flags { c01: false, c03: true, c13: false, margins: true, group_batches: false };
     let base = run_monitored(&with_period(&c.h, c.periods[0]), flags)?;
     // a call whose outcome is ambiguous (two decisions closer than the margin) may legitimately
     // come out differently in two runs: compare up to that call only
